@@ -23,8 +23,20 @@ ObserveBig ==
     /\ in' = Ev.in /\ stage' = "big" /\ fig' = Ev.out /\ viol' = ViolBig(Ev.in, Ev.out)
     /\ hist' = <<[a |-> "RunBig", in |-> [x |-> 0], out |-> [x |-> 0], st |-> [stage |-> "big"]]>>
 AsSpecified == Consistent(Ev.in) /\ Observed = Result(Ev.in)
-TraceSpec    == TraceInit /\ [][(ObserveRun /\ AsSpecified) \/ ObserveBig]_tvars
-TraceSpecObs == TraceInit /\ [][ObserveRun \/ ObserveBig]_tvars
+\* RunE2E: in = [epoch, eco, run]: the epoch given to the real economics, the figures it returned / published, the run
+ObserveE2E ==
+    /\ l <= Len(TLog) /\ Ev.a = "RunE2E" /\ l' = l + 1
+    /\ in' = Ev.in.run /\ stage' = "done" /\ fig' = Observed
+    /\ viol' = ViolE2E(Ev.in.epoch, Ev.in.eco, Ev.in.run, Observed)
+    /\ hist' = <<[a |-> "RunE2E", in |-> [x |-> 0], out |-> Ev.out, st |-> [stage |-> "done"]]>>
+E2EAsSpecified ==
+    LET e == Ev.in.epoch ec == Ev.in.eco r == Ev.in.run IN
+    /\ e.v2 /\ EcoConsistent(e)
+    /\ ec = EcoResult(e)                               \* the real economics took the specified branch and figures
+    /\ r.total = ec.total /\ r.dev = e.dev /\ r.leader = ec.leader /\ r.prot = ec.prot /\ r.forBlocks = ec.forBlocks
+    /\ Consistent(r) /\ Observed = Result(r)
+TraceSpec    == TraceInit /\ [][(ObserveRun /\ AsSpecified) \/ ObserveBig \/ (ObserveE2E /\ E2EAsSpecified)]_tvars
+TraceSpecObs == TraceInit /\ [][ObserveRun \/ ObserveBig \/ ObserveE2E]_tvars
 
 Clause(c) == ~(c \in viol)
 Inv_C35_SumIsTotalToDistribute == Clause("sum-differs-from-total-to-distribute")
@@ -33,6 +45,7 @@ Inv_C35_ProtocolNonNegative    == Clause("negative-protocol-sustainability-rewar
 Inv_C35_SupportedDestinations  == Clause("reward-to-unsupported-metachain-address")
 Inv_C35_RightMiniblock         == Clause("reward-in-wrong-miniblock")
 Inv_C35_OneRewardPerAddress    == Clause("two-rewards-for-one-address")
+Inv_C35_PublishedFiguresAddUp  == Clause("published-figures-do-not-add-up")
 
 HighWater == TLCSet(1, IF l > TLCGet(1) THEN l ELSE TLCGet(1))
 Accepted  == IF TLCGet(1) = Len(TLog) + 1 THEN TRUE ELSE PrintT("@@HW " \o ToString(TLCGet(1))) /\ FALSE
